@@ -40,6 +40,9 @@ func sectionHullRace() {
 	for _, nb := range []int{1, 10} {
 		runForgetRace(sec, nb)
 	}
+	for _, n := range []int{250, 300} {
+		runReorderRace(sec, n)
+	}
 	res.Done(sec)
 }
 
@@ -383,6 +386,96 @@ func runForgetRace(sec *vh.Section, nb int) {
 	ans, err := vh.Batch(args.Driver, r.lines)
 	if err != nil {
 		res.Note("hullrace/forget: driver: %v", err)
+	}
+	for i := range ans {
+		r.checks[i](ans[i])
+	}
+}
+
+// runReorderRace is the deterministic replay of finding F62: two writers of one partition; the journal orders their records
+// (batch B before batch C) but the time-index notifications arrive in the other order. The late notification of B is merged
+// into the tree behind C's point: block.addInterval keeps p1.ts = max(B.max, last.ts) = C's maximum but takes p1.idx = B's last
+// record, so the last index point says "timestamp C.max at position B.last" and drops C's own point; lastRec and Recs go DOWN.
+// While count > Recs the window stays open (a7caf30); after the next write Recs is exact again and GetPosForLessTime cuts the
+// window at B's last record for every upper bound below C's maximum: C's in-range records are hidden (monotone data).
+func runReorderRace(sec *vh.Section, n int) {
+	dir := lrsrv.NewDir()
+	defer os.RemoveAll(dir)
+	srv, err := lrsrv.Start(dir, lrsrv.Opts{MaxChunkSize: 250000, NoRPC: true})
+	if err != nil {
+		res.Note("hullrace/reorder: %v", err)
+		return
+	}
+	defer srv.Stop()
+	defer verifhook.Reset()
+	r := &sysRun{h: history{ChunkSize: 250000, Regime: "strict"}, srv: srv, ctx: context.Background(), sec: sec, section: "hullrace"}
+	rng := vh.NewRng(int64(n))
+	r.ask("rw.reset 250000", func(string) {})
+	if !r.doWrite(op{Kind: "write", Segs: []seg{{T: 100, N: n, D: 1}}}, rng) { // A
+		return
+	}
+	arrived, gate := make(chan struct{}, 1), make(chan struct{})
+	var once bool
+	verifhook.Set("partition.write.beforeCIndex", func() {
+		if !once {
+			once = true
+			arrived <- struct{}{}
+			<-gate
+		}
+	})
+	bts := expand([]seg{{T: 1000, N: n, D: 1}})
+	doneW := make(chan struct{})
+	go func() {
+		defer close(doneW)
+		evs := make([]model.LogEvent, len(bts))
+		for i, t := range bts {
+			evs[i] = model.LogEvent{Timestamp: t, Msg: []byte(fmt.Sprintf("%06d", n+i))}
+		}
+		srv.Parts.Write(context.Background(), tags, &wit{evs: evs}, true)
+	}()
+	select {
+	case <-arrived:
+	case <-time.After(5 * time.Second):
+		res.Note("hullrace/reorder: the first writer did not reach the hook")
+		close(gate)
+		<-doneW
+		return
+	}
+	r.allTs = append(r.allTs, bts...)
+	r.batches = append(r.batches, bts)
+	r.full = nil
+	if !r.waitFlushed() {
+		close(gate)
+		<-doneW
+		return
+	}
+	r.ask("rw.writenoindex "+modelSpec(bts), func(string) {})
+	// the second writer: batch C, written and notified while B's notification is parked
+	if !r.doWrite(op{Kind: "write", Segs: []seg{{T: 2000, N: n, D: 1}}}, rng) {
+		close(gate)
+		<-doneW
+		return
+	}
+	close(gate) // B's notification arrives late
+	<-doneW
+	r.ask("rw.notify", func(string) {})
+	r.compareIndexState("late notification", rng)
+	// count > Recs: the window is open, nothing is hidden yet
+	r.doQuery(op{Kind: "query", Lo: i64p(2000), Hi: i64p(2010)}, false)
+	r.doQuery(op{Kind: "query", Hi: i64p(2050)}, false)
+	// the next write makes Recs exact again: the damaged index is used
+	if !r.doWrite(op{Kind: "write", Segs: []seg{{T: 3000, N: n, D: 1}}}, rng) {
+		return
+	}
+	r.schedFinding = "F62"
+	r.doQuery(op{Kind: "query", Lo: i64p(2000), Hi: i64p(2010)}, false)
+	r.doQuery(op{Kind: "query", Hi: i64p(2050)}, false)
+	r.doQuery(op{Kind: "query", Lo: i64p(1990), Hi: i64p(2100), Page: 97}, false)
+	r.schedFinding = ""
+	r.doQuery(op{Kind: "query", Lo: i64p(3000)}, false)
+	ans, err := vh.Batch(args.Driver, r.lines)
+	if err != nil {
+		res.Note("hullrace/reorder: driver: %v", err)
 	}
 	for i := range ans {
 		r.checks[i](ans[i])
